@@ -372,6 +372,7 @@ def build_io(case, res, verdict):
                         toks.append('U:%d:%s:%s' % (u, s, _items_str([item_no(s, x) for x in its])))
     expected = []
     marker_point = {}
+    measured = set(urls)          # (url, sub-request) pairs whose config-driven entries the baselines measured
     for ev in res['events']:
         kind, tok = ev[0], ev[1]
         t = thread_of[tok]
@@ -387,7 +388,10 @@ def build_io(case, res, verdict):
         elif kind == 'O':
             snap = rec['snaps'][ev[3]]
             toks.append('O:%d' % t)
-            e = {'kind': 'snap', 'token': tok, 'stage': snap['stage'], 'exact': snap['stage'] == 'start:in'}
+            # (a request whose own destructive ops changed its control flow may go through sub-requests its
+            # baseline never had: nothing was measured for those)
+            e = {'kind': 'snap', 'token': tok, 'stage': snap['stage'],
+                 'exact': snap['stage'] == 'start:in' and (R.urlkey(plan), snap.get('sub', 0)) in measured}
             if e['exact']:
                 its = slot_items(snap['contents'])
                 e['items'] = {s: sorted(item_no(s, x) for x in its.get(s, [])) for s in SLOTS if s != 'respBody'}
